@@ -69,6 +69,14 @@ func (e *Ev) evGhostCall(x *ast.CallExpr) Val {
 		o := *e.oldEv
 		o.bound = e.bound
 		return o.ev(x.Args[0])
+	case "entry":
+		// entry(x): the value x had when the enclosing loop was entered
+		if e.loopEntryEv == nil {
+			e.unsupp(x, "entry() is only meaningful in a loop invariant")
+		}
+		o := *e.loopEntryEv
+		o.bound = e.bound
+		return o.ev(x.Args[0])
 	case "forallkey":
 		// forallkey(k, P): P for every string contents k (a ghost sequence)
 		kid, ok := x.Args[0].(*ast.Ident)
